@@ -94,12 +94,18 @@ def body_factory(ctx):
         with ctx.sut("marginal_ln_likelihood"):
             probe = np.asarray(tj.TheJoker(prior).marginal_ln_likelihood(data, smp, in_memory=True), dtype=float)
         if not np.all(np.isfinite(probe)):
-            kap = max(og.evaluate(prob, r)["kappa"] for r in rows_eff)
+            kap = max(og.evaluate(prob, r, fl)["kappa"] for r in rows_eff for fl in og.subsets(prob.applicable_flags(r)))
             if kap > 1e14:
                 ctx.classes["numerically singular configuration (kappa>1e14): skipped"] += 1
                 return
             raise Violation("marginal ln-likelihood is not finite for a finite valid input", values=probe[:8], kappa=kap)
         out, calls, rg, pool = run_rejection(ctx, spec, prob, data, prior, smp)
+        # independent draws: no two tasks (of one call or of successive calls) may start from the same generator state
+        states = [st_ for _, st_ in pool.child_states]
+        if len(set(states)) != len(states):
+            raise Violation("two batches were handed random generators in the same state: their linear-parameter draws are "
+                            "copies of each other in standardised form, not independent draws", n_tasks=len(states),
+                            distinct=len(set(states)))
         n_lin = spec["n_linear"]
         names = linear_names(prob)
         units = linear_units(prob)
